@@ -65,6 +65,7 @@ func runQueryProp(prop string, seed int64, tier string, out string) {
 		tx := newTx(sc.Dir)
 		w := &qWorld{}
 		big := wi%7 == 3
+		medium := !big && wi%3 == 1 && prop != "C07"
 		for ti := 0; ti < 3; ti++ {
 			nrows := r.Intn(13)
 			if r.Intn(6) == 0 {
@@ -78,6 +79,11 @@ func runQueryProp(prop string, seed int64, tier string, out string) {
 				if ti == 1 {
 					nrows = 3 + r.Intn(6)
 				}
+			}
+			if medium {
+				// enough rows for the joins / filters to be split over several goroutines
+				// (rows(left) x rows(right) above 80), small enough for deep join trees
+				nrows = 12 + r.Intn(30)
 			}
 			name := fmt.Sprintf("t%d", ti+1)
 			coqName := fmt.Sprintf("w%d_t%d", wi, ti+1)
@@ -122,6 +128,9 @@ func runQueryProp(prop string, seed int64, tier string, out string) {
 					if big {
 						depth = 1
 					}
+					if medium && depth > 2 {
+						depth = 2
+					}
 					q = g.genSelectJoin(w, r.Intn(depth+1))
 				case "C04":
 					q = g.genBucket(w)
@@ -132,6 +141,9 @@ func runQueryProp(prop string, seed int64, tier string, out string) {
 			q.cpu = 1
 			if qi%3 == 2 || (big && qi%2 == 0) {
 				q.cpu = 4
+			}
+			if medium {
+				q.cpu = []int{4, 2, 8, 1}[qi%4]
 			}
 			tx.Flags.SetCPU(q.cpu)
 			tx.Flags.SetStrictEqual(q.strict)
